@@ -6,7 +6,9 @@ use super::cssdest::CssDestination;
 use crate::css::{self, AtRule, Import, SelectorCtx};
 use crate::error::ResultPos;
 use crate::input::{Context, Loader, Parsed, SourceKind};
-use crate::sass::{Expose, Item, ItemBody, UseAs, get_global_module};
+use crate::sass::{
+    Expose, Item, ItemBody, Name, UseAs, Value, get_global_module,
+};
 use crate::{Error, Invalid, ScopeRef};
 
 pub fn handle_parsed(
@@ -57,6 +59,49 @@ fn handle_body(
     Ok(())
 }
 
+/// Check that each variable configured by `with` is declared with
+/// `!default` in the module.
+///
+/// A module that loads other files or uses flow control at its top
+/// level may declare the variable in a way this check does not see,
+/// so such a module is accepted as before.
+fn check_configurable(
+    parsed: &Parsed,
+    with: &[(Name, Value, bool)],
+) -> Result<(), Error> {
+    if with.is_empty() {
+        return Ok(());
+    }
+    let Parsed::Scss(items) = parsed else {
+        return Ok(());
+    };
+    let items = items.as_ref();
+    if items.iter().any(|item| {
+        matches!(
+            item,
+            Item::Forward(..)
+                | Item::Import(..)
+                | Item::IfStatement(..)
+                | Item::Each(..)
+                | Item::For(..)
+                | Item::While(..)
+                | Item::MixinCall(..)
+        )
+    }) {
+        return Ok(());
+    }
+    for (name, _, _) in with {
+        if !items.iter().any(|item| {
+            matches!(item, Item::VariableDeclaration(v) if v.is_default_of(name))
+        }) {
+            return Err(Error::S(
+                "This variable was not declared with !default in the @used module.".to_string(),
+            ));
+        }
+    }
+    Ok(())
+}
+
 fn handle_item(
     item: &Item,
     dest: &mut dyn CssDestination,
@@ -95,8 +140,10 @@ fn handle_item(
                                 ));
                             }
                         }
+                        let parsed = sourcefile.parse()?;
+                        check_configurable(&parsed, with)?;
                         handle_parsed(
-                            sourcefile.parse()?,
+                            parsed,
                             dest,
                             module.clone(),
                             file_context,
@@ -145,8 +192,10 @@ fn handle_item(
                                 ));
                             }
                         }
+                        let parsed = sourcefile.parse()?;
+                        check_configurable(&parsed, with)?;
                         handle_parsed(
-                            sourcefile.parse()?,
+                            parsed,
                             dest,
                             module.clone(),
                             file_context,
